@@ -2055,4 +2055,44 @@ theorem mainRun_names (data : List Char) (vm fm : Option (List Char → Bool)) (
     exact scopeLoop_names _ _ _ vm fm _ _ r' hr (by simp)
   · cases h
 
+/-! ## the bytes written (`out.write(buff[a:b].encode("utf-8"))` per window) -/
+
+theorem utf8_append (a b : List Char) : utf8 (a ++ b) = utf8 a ++ utf8 b := by
+  unfold utf8; exact List.flatMap_append
+
+theorem utf8_flatten (l : List (List Char)) : utf8 l.flatten = (l.map utf8).flatten := by
+  induction l with
+  | nil => rfl
+  | cons a l ih => simp [utf8_append, ih]
+
+/-- only the NUL character has a zero byte in its encoding -/
+theorem utf8EncodeChar_no_nul (c : Char) (h : (0 : UInt8) ∈ String.utf8EncodeChar c) : c = '\x00' := by
+  have key : ∀ n : Nat, n < 256 → (0 : UInt8) = UInt8.ofNat n → n = 0 := by
+    intro n hn he
+    have := congrArg UInt8.toNat he
+    simp [UInt8.toNat_ofNat'] at this
+    omega
+  unfold String.utf8EncodeChar at h
+  simp only [] at h
+  split at h
+  · simp only [List.mem_singleton] at h
+    have := key _ (by omega) h
+    apply Char.ext
+    apply UInt32.toNat_inj.mp
+    simpa using this
+  · split at h
+    · simp only [List.mem_cons, List.not_mem_nil, or_false] at h
+      rcases h with h | h <;> have := key _ (by omega) h <;> omega
+    · split at h
+      · simp only [List.mem_cons, List.not_mem_nil, or_false] at h
+        rcases h with h | h | h <;> have := key _ (by omega) h <;> omega
+      · simp only [List.mem_cons, List.not_mem_nil, or_false] at h
+        rcases h with h | h | h | h <;> have := key _ (by omega) h <;> omega
+
+theorem utf8_no_nul (s : List Char) (h : '\x00' ∉ s) : (0 : UInt8) ∉ utf8 s := by
+  intro h0
+  unfold utf8 at h0
+  obtain ⟨c, hc, h0⟩ := List.mem_flatMap.mp h0
+  exact h (utf8EncodeChar_no_nul c h0 ▸ hc)
+
 end Pkgcore.C34
